@@ -1,7 +1,7 @@
 """Executor for split cases (C08, also feeds C14 / C10 logs)."""
 import sys
 
-sys.path.insert(0, "/repo")
+sys.path.insert(0, __import__("os").environ.get("VERIF_REPO", "/repo"))
 from fibertree import Fiber, Payload, Tensor  # noqa: E402
 from . import proj  # noqa: E402
 
